@@ -188,7 +188,7 @@ pub fn extract(file: &syn::File, sels: &[String], rel: &str) -> Vec<Group> {
                                         (Some(_), Some((_, p, _))) => format!(
                                             "{}impl {} for {}::{}",
                                             prefix,
-                                            p.segments.last().unwrap().ident,
+                                            rules::norm(&p.segments.last().unwrap().to_token_stream().to_string()),
                                             type_last_ident(&im.self_ty).unwrap_or_default(),
                                             n
                                         ),
@@ -526,7 +526,7 @@ pub fn emit_group(
                     let fieldless = e.variants.iter().all(|v| matches!(v.fields, syn::Fields::Unit));
                     rules::filter_attrs(&mut e.attrs, cfg, fieldless, fired);
                     for v in e.variants.iter_mut() {
-                        v.attrs.retain(|a| !a.path().is_ident("doc") && !a.path().is_ident("serde") && !a.path().is_ident("cfg_attr"));
+                        v.attrs.retain(|a| !a.path().is_ident("doc") && !a.path().is_ident("serde") && !a.path().is_ident("cfg_attr") && !a.path().is_ident("default"));
                         for fld in v.fields.iter_mut() {
                             fld.attrs.retain(|a| !a.path().is_ident("doc"));
                         }
@@ -625,6 +625,46 @@ pub fn emit_group(
                 None => false,
             };
             KEEP_TRAIT.with(|k| k.set(keep_trait));
+            // R-freefn: a trait impl on a foreign type becomes free functions (Self := the impl's type)
+            if let Some((_, tp, _)) = &header.trait_ {
+                let key = rules::norm(&format!(
+                    "impl {} for {}",
+                    tp.to_token_stream(),
+                    header.self_ty.to_token_stream()
+                ));
+                if let Some(fname) = cfg.free_fn_impls.get(&key) {
+                    *fired.entry("R-freefn".into()).or_insert(0) += 1;
+                    let self_ty = (*header.self_ty).clone();
+                    for (sel, m) in methods {
+                        let (a, b) = line_span(&m);
+                        items_map.push(json!({"selector": sel, "file": rel, "line_start": a, "line_end": b, "source": src_of(a, b)}));
+                        let c = lookup(&sel, used);
+                        let mut sig = m.sig.clone();
+                        sig.ident = syn::Ident::new(fname, Span::call_site());
+                        let assoc = Some(vec![("__SelfType".to_string(), self_ty.clone())]);
+                        // replace `Self` by the impl's type in the signature
+                        struct SelfTy(syn::Type);
+                        impl VisitMut for SelfTy {
+                            fn visit_type_mut(&mut self, t: &mut syn::Type) {
+                                if let syn::Type::Path(tp) = t {
+                                    if tp.qself.is_none() && tp.path.is_ident("Self") {
+                                        *t = self.0.clone();
+                                        return;
+                                    }
+                                }
+                                syn::visit_mut::visit_type_mut(self, t);
+                            }
+                        }
+                        let mut st = SelfTy(self_ty.clone());
+                        st.visit_signature_mut(&mut sig);
+                        let mut blk = m.block.clone();
+                        st.visit_block_mut(&mut blk);
+                        let vis: syn::Visibility = syn::parse_quote!(pub);
+                        emit_fn(&sel, &m.attrs, &vis, &sig, &blk, assoc, rel, cfg, c, pr, fired, false, canaries);
+                    }
+                    return;
+                }
+            }
             let generics = &header.generics;
             let self_ty = &header.self_ty;
             let where_c = &header.generics.where_clause;
@@ -650,7 +690,7 @@ pub fn emit_group(
             {
                 let ty_last = type_last_ident(&header.self_ty).unwrap_or_default();
                 let key = match &header.trait_ {
-                    Some((_, p, _)) => format!("impl {} for {}", p.segments.last().unwrap().ident, ty_last),
+                    Some((_, p, _)) => format!("impl {} for {}", rules::norm(&p.segments.last().unwrap().to_token_stream().to_string()), ty_last),
                     None => format!("impl {}", ty_last),
                 };
                 if let Some(c) = lookup(&key, used) {
